@@ -15,7 +15,7 @@ use noodles_vcf as vcf;
 
 use super::{ArcBytes, align, kinds::Kind, variant};
 
-fn regions(names: &[String]) -> Vec<Region> {
+pub(crate) fn regions(names: &[String]) -> Vec<Region> {
     let mut v = Vec::new();
     for n in names.iter().take(2) {
         for r in [
